@@ -218,7 +218,7 @@ def pyenv_for(values):
         except Exception:
             pass
         try:
-            b64s.append((isb, list(content), list(b64decode(obj))))
+            b64s.append((isb, list(content), list(b64decode(obj, validate=True))))
         except Exception:
             pass
     return {'int_of': ints, 'b64_of': b64s}
